@@ -110,6 +110,56 @@ class Obligation:
         return f"{self.fn}#{self.kind}.{self.label}@{self.path}"
 
 
+CONTAINER_MAPS = ("seq", "dmap", "ddom")
+
+
+def mod_covers(mname: str, mapname: str) -> bool:
+    """Does a frame entry of kind mname allow writing heap map `mapname`?
+    '*' everything, 'c*' container contents, 'f*' all attributes."""
+    if mname == "*" or mname == mapname:
+        return True
+    if mname == "c*":
+        return mapname in CONTAINER_MAPS or mapname == "c*"
+    if mname == "f*":
+        return mapname.startswith("fld:") or mapname == "f*"
+    return False
+
+
+def has_quantifier(t) -> bool:
+    seen = set()
+    stack = [t]
+    while stack:
+        e = stack.pop()
+        i = e.get_id()
+        if i in seen:
+            continue
+        seen.add(i)
+        if z3.is_quantifier(e):
+            return True
+        stack.extend(e.children())
+    return False
+
+
+def split_conj(t) -> list:
+    """Flatten conjunctions, distributing universal quantifiers over them."""
+    if z3.is_and(t):
+        out = []
+        for c in t.children():
+            out.extend(split_conj(c))
+        return out
+    if z3.is_quantifier(t) and t.is_forall() and z3.is_and(t.body()):
+        n = t.num_vars()
+        vs = [z3.Const(t.var_name(i), t.var_sort(i)) for i in range(n)]
+        # de Bruijn index 0 is the last bound variable
+        body = z3.substitute_vars(t.body(), *reversed(vs))
+        out = []
+        for c in body.children():
+            for c2 in split_conj(c):
+                out.append(z3.ForAll(vs, c2))
+        return out
+    return [t]
+
+
 class Snap:
     """Heap snapshot: materialised maps + number of havoc events included."""
 
@@ -216,6 +266,7 @@ class Exec:
         self.tags: list[str] = []
         self.obls: list[Obligation] = []
         self.pc: list = []
+        self.pc_ids: set = set()
         self.counter = 0
         self.heap: dict[str, Any] = {}
         self.heap0: dict[str, Any] = {}
@@ -250,11 +301,20 @@ class Exec:
             if b:
                 return
             b = z3.BoolVal(False)
-        self.pc.append(b)
+        for c in split_conj(b):
+            i = c.get_id()
+            if i in self.pc_ids:
+                continue
+            self.pc_ids.add(i)
+            self.pc.append(c)
 
     def _sync(self) -> None:
+        # feasibility pruning uses the quantifier-free part of the path condition
+        # only (weaker hypotheses: never prunes a feasible path)
         while self.npc_in_solver < len(self.pc):
-            self.solver.add(self.pc[self.npc_in_solver])
+            p = self.pc[self.npc_in_solver]
+            if not has_quantifier(p):
+                self.solver.add(p)
             self.npc_in_solver += 1
 
     def feasible(self, cond) -> bool:
@@ -272,11 +332,17 @@ class Exec:
         """Record a proof obligation pc => goal, then continue under goal."""
         if isinstance(goal, bool):
             goal = z3.BoolVal(goal)
-        goal = z3.simplify(goal)
-        if z3.is_true(goal):
-            self.obls.append(Obligation(self.fi.qualname, kind, label, self.path_sig(), [], z3.BoolVal(True), self.cur_line))
-            return
-        self.obls.append(Obligation(self.fi.qualname, kind, label, self.path_sig(), list(self.pc), goal, self.cur_line))
+        parts = split_conj(goal)
+        pc0 = list(self.pc)
+        if self.fi.qualname != self.c.target:
+            label = f"[in {self.fi.qualname.split(':')[1]}]{label}"
+        for i, g in enumerate(parts):
+            lbl = label if len(parts) == 1 else f"{label}.{i}"
+            g = z3.simplify(g)
+            if z3.is_true(g):
+                self.obls.append(Obligation(self.c.target, kind, lbl, self.path_sig(), [], z3.BoolVal(True), self.cur_line))
+                continue
+            self.obls.append(Obligation(self.c.target, kind, lbl, self.path_sig(), pc0, g, self.cur_line))
         self.assume(goal)
 
     def choose(self, n: int, conds: list | None, tag: str) -> int:
@@ -466,7 +532,7 @@ class Exec:
     def frame_ok(self, oid, mapname: str):
         alts = [oid >= self.alloc0]
         for mid, mname in self.modset:
-            if mname == "*" or mname == mapname:
+            if mod_covers(mname, mapname):
                 alts.append(oid == mid)
         return z3.Or(alts)
 
@@ -501,6 +567,8 @@ class Exec:
         self.assume(old_seq == z3.Concat(a, z3.Unit(k.t), b))
         self.assume(z3.Not(z3.Contains(a, z3.Unit(k.t))))
         self.assume(z3.Not(z3.Contains(b, z3.Unit(k.t))))
+        # definition of seq_remove at this instance
+        self.assume(S.seq_remove(old_seq, k.t) == z3.Concat(a, b))
         self.wr("seq", oid, z3.Concat(a, b))
         self.wr("ddom", oid, z3.Store(self.ddom(d), k.t, z3.BoolVal(False)))
         return self.typed(val, self.val_ty(d.ty))
@@ -539,6 +607,8 @@ class Exec:
             for a in v.ty.args:
                 parts.append(z3.And(self.type_pred(v.t, a), self.truth(SV(v.t, a))))
             return z3.Or(parts)
+        if k == "any":
+            return z3.Function("truthy", Val, S.BOOL)(v.t)
         raise Unsupported(f"truthiness of {v.ty} at line {self.cur_line}")
 
     # ------------------------------------------------------------------ entry
@@ -601,8 +671,11 @@ class Exec:
     def eval_modifies(self, lam: ast.expr | None, env: dict[str, SV]) -> list[tuple[Any, str]]:
         if lam is None:
             return []
-        v = self.spec_eval(lam.body if isinstance(lam, ast.Lambda) else lam, env)
-        items = v.aux if v.ty.kind == "raw" and isinstance(v.aux, list) else [v]
+        body = lam.body if isinstance(lam, ast.Lambda) else lam
+        if isinstance(body, (ast.List, ast.Tuple)):
+            items = [self.spec_eval(e, env) for e in body.elts]
+        else:
+            items = [self.spec_eval(body, env)]
         out = []
         for it in items:
             if it.ty.kind == "raw" and isinstance(it.aux, tuple) and it.aux[0] == "field":
@@ -610,6 +683,10 @@ class Exec:
             elif it.ty.kind == "raw" and isinstance(it.aux, tuple) and it.aux[0] == "maybe":
                 # optional object: None contributes nothing
                 out.append((it.aux[1], "*"))
+            elif it.ty.kind in ("dict", "list", "set", "tuple"):
+                out.append((self.ref_id(it), "c*"))
+            elif it.ty.kind == "obj" and INDEX.cls(it.ty.cls) is not None:
+                out.append((self.ref_id(it), "f*"))
             else:
                 out.append((self.ref_id(it), "*"))
         return out
@@ -644,41 +721,58 @@ class Exec:
     def exec_function_body(self) -> None:
         node = self.fi.node
         decos = [d for d in self.fi.decorators if d not in ("property", "staticmethod", "classmethod", "abstractmethod")]
-        for d in decos:
-            if d == "_invalidate_cache":
-                self.exec_decorator_prefix(d)
-            elif d.startswith("overload"):
-                raise Unsupported("overload stub")
-            else:
-                raise Unsupported(f"unknown decorator {d} on {self.fi.qualname}")
-        self.exec_block(node.body)
+        if not decos:
+            self.exec_block(node.body)
+            return
+        if len(decos) > 1:
+            raise Unsupported(f"stacked decorators on {self.fi.qualname}")
+        d = decos[0]
+        if d.startswith("overload"):
+            raise Unsupported("overload stub")
+        self.exec_decorated(d, self.fi, self.params)
 
-    def exec_decorator_prefix(self, deco: str) -> None:
-        """Execute the decorator's own wrapper body (re-read from the source) up to
-        the call of the wrapped method, with args[0] bound to the first parameter."""
-        dfi = INDEX.func(f"{self.module}:{deco}")
-        wrapper = next(n for n in dfi.node.body if isinstance(n, ast.FunctionDef))
-        first = next(iter(self.params.values()))
-        argt = self.new_list(z3.Unit(first.t), T.tuple_of(first.ty), cls="tuple")
+    def exec_decorated(self, deco: str, fi: FuncInfo, params: dict[str, SV]) -> None:
+        """Run the decorator's own wrapper body (re-read from the source).  The name
+        bound to the wrapped method is a marker; calling it runs the method's body
+        on the original parameters.  Raises _Return like a function body."""
+        try:
+            dfi = INDEX.func(f"{fi.module}:{deco}")
+        except KeyError as e:
+            raise Unsupported(f"unknown decorator {deco} on {fi.qualname}") from e
+        inner = [n for n in dfi.node.body if isinstance(n, ast.FunctionDef)]
+        rets = [n for n in dfi.node.body if isinstance(n, ast.Return)]
+        if len(inner) != 1 or not rets or ast.unparse(rets[-1].value).split("  #")[0].strip() != inner[0].name:
+            raise Unsupported(f"decorator {deco}: not of the simple wrapper form")
+        wrapper = inner[0]
+        if wrapper.args.vararg is None:
+            raise Unsupported(f"decorator {deco}: wrapper without *args")
+        plist = list(params.values())
+        argt = self.new_list(
+            z3.Concat(*[z3.Unit(v.t) for v in plist]) if len(plist) > 1 else z3.Unit(plist[0].t),
+            T.tuple_of(T.ANY), cls="tuple",
+        )
+        argt.aux = [v.ty for v in plist]
         saved = self.locals
-        self.locals = {wrapper.args.vararg.arg: argt}
-        done = False
-        for st in wrapper.body:
-            if isinstance(st, ast.Return):
-                call = st.value
-                ok = (
-                    isinstance(call, ast.Call)
-                    and isinstance(call.func, ast.Name)
-                    and call.func.id == dfi.node.args.args[0].arg
-                )
-                if not ok:
-                    raise Unsupported(f"decorator {deco}: unexpected wrapper shape")
-                done = True
-                break
-            self.exec_stmt(st)
-        if not done:
-            raise Unsupported(f"decorator {deco}: wrapper never calls the method")
-        self.locals = saved
+        frame = {wrapper.args.vararg.arg: argt, dfi.node.args.args[0].arg: SV(None, T.RAW, aux=("wrapped", fi, params))}
+        if wrapper.args.kwarg is not None:
+            frame[wrapper.args.kwarg.arg] = self.new_dict()
+        self.locals = frame
+        try:
+            self.exec_block(wrapper.body)
+        finally:
+            self.locals = saved
+
+    def run_wrapped(self, fi: FuncInfo, params: dict[str, SV]) -> SV:
+        saved = (self.locals, self.loop_counter)
+        self.locals = dict(params)
+        self.loop_counter = 0
+        try:
+            self.exec_block(fi.node.body)
+            return sv_none()
+        except _Return as r:
+            return r.value
+        finally:
+            self.locals, self.loop_counter = saved
 
     def clause_lambda_env(self) -> dict[str, SV]:
         return self.spec_env()
@@ -700,6 +794,8 @@ class Exec:
     def check_noassume(self, goal, kind: str, label: str) -> None:
         n = len(self.pc)
         self.check(goal, kind, label)
+        for c in self.pc[n:]:
+            self.pc_ids.discard(c.get_id())
         del self.pc[n:]
         self.npc_reset()
 
@@ -840,7 +936,9 @@ class Exec:
 
     def st_Raise(self, st: ast.Raise) -> None:
         if st.exc is None:
-            raise Unsupported("bare raise")
+            if getattr(self, "handling", None):
+                raise self.handling[-1]
+            raise Unsupported("bare raise outside a handler")
         exc = st.exc
         if isinstance(exc, ast.Call):
             name = ast.unparse(exc.func).split(".")[-1]
@@ -868,7 +966,13 @@ class Exec:
                     self.tags.append(f"except[{e.cls}]")
                     if h.name:
                         self.locals[h.name] = SV(self.fresh("exc"), T.obj(e.cls))
-                    self.exec_block(h.body)
+                    if not hasattr(self, "handling") or self.handling is None:
+                        self.handling = []
+                    self.handling.append(e)
+                    try:
+                        self.exec_block(h.body)
+                    finally:
+                        self.handling.pop()
                     return
             raise
         else:
@@ -961,6 +1065,10 @@ class Exec:
             if objs and all(t is not None for t in tys):
                 fty = T.union(*tys)  # type: ignore[arg-type]
                 return self.typed(self.rd("fld:" + name, self.ref_id(base)), fty)
+        if bt.kind == "any" or (bt.kind == "obj" and INDEX.cls(bt.cls) is None):
+            # dynamically typed value: an attribute read yields an unknown value
+            self.note_assumption("attribute reads on dynamically typed values are side-effect free (value unknown)")
+            return SV(self.rd("fld:" + name, S.un_ref(base.t)), T.ANY)
         raise Unsupported(f"attribute .{name} on {bt} (line {self.cur_line})")
 
     def attr_store(self, base: SV, name: str, v: SV, what: str) -> None:
@@ -1425,6 +1533,9 @@ class Exec:
         r = lib.contains_hook(self, container, item)
         if r is not None:
             return r
+        if k == "any":
+            # membership in a dynamically typed container: unknown Boolean
+            return self.fresh("in", S.BOOL)
         raise Unsupported(f"'in' on {container.ty} (line {self.cur_line})")
 
     def ev_Compare(self, node: ast.Compare) -> SV:
